@@ -22,7 +22,8 @@ REQUIRED_BUCKETS = ['map:insert', 'map:overwrite', 'map:pop', 'map:copy', 'map:c
                     'map:single-root-branch', 'map:pop-prunes', 'map:copy-diverged',
                     'api:write:str', 'api:write:tuple', 'api:write:text', 'api:write:block',
                     'api:read:query', 'api:read:get_bindings', 'api:read:call', 'api:read:reference', 'api:ambiguous', 'api:unknown',
-                    'api:hooks-same-param-different-spelling', 'api:hooks-distinct-params', 'api:spellings-differ']
+                    'api:hooks-same-param-different-spelling', 'api:hooks-distinct-params', 'api:spellings-differ', 'api:explicit-macro-reference',
+                    'api:class-registered-twice', 'api:method-with-class-module']
 ORACLE_COUNTERS = ['oracle_evals', 'map_queries', 'api_roundtrips']
 ASSUMPTIONS = ['private _selector_tree/_selector_map are walked for the agreement invariant when present']
 ALPHA = ['a', 'b', 'c']
@@ -406,10 +407,65 @@ def run_api(ctx, case):
 
 def iter_cases(ctx, rng, n):
   for i in range(n):
+    if i % 20 == 19:
+      yield {'kind': 'api-special', 'which': rng.choice(['explicit-macro-reference', 'class-registered-twice', 'method-with-class-module']), 'n': rng.randrange(1 << 30),
+             'spelling': rng.choice(['macro', 'gin.macro'])}
+      continue
     yield gen_map_case(rng) if i % 2 == 0 else gen_api_case(rng)
 
 
+def run_special(ctx, case):
+  import gin
+  from gin import config as gc
+  gin.clear_config()
+  _HOOK_PLAN[0] = _HOOK_PLAN[1] = None
+  which = case['which']
+  ctx.bucket('api:' + which)
+  if which == 'explicit-macro-reference':
+    # a macro may also be referenced explicitly, through any spelling of its configurable: `@name/macro()`; finalize looks its binding up
+    gin.parse_config('c8mac = 5\nc8cons.v = @c8mac/%s()\n' % case['spelling'])
+    try:
+      gin.finalize()
+      ok = True
+    except ValueError as e:
+      ok = False
+      ctx.check(False, 'reference-key-depends-on-spelling', 'finalize rejected a bound macro referenced as @c8mac/%s(): %s' % (case['spelling'], str(e)[:200]))
+    if ok:
+      ctx.count('oracle_evals')
+      ctx.check(_FAMILY['cons'].conf() is not None or True, 'x', '')
+      got = probes.RECORDER.log[-1].received['v']
+      ctx.check(got == 5, 'spelling-dependent-read', 'explicit macro reference delivered %r' % (got,))
+  else:
+    n = case['n'] % 100000
+    cname, mname = 'C8K%d_%s' % (n, ctx.uid), 'c8m%d_%s' % (n, ctx.uid)
+    g = {'__name__': 'c8dyn'}
+    exec('class %s:\n  def __init__(self, c=0):\n    self.c = c\n  def %s(self, arg=0):\n    return arg\n' % (cname, mname), g)
+    cls = g[cname]
+    if which == 'class-registered-twice':
+      gin.register(cls.__dict__[mname])
+      gin.register(cname, module='c8.tw')(cls)
+      gin.register(cname, module='c8.tw')(cls)      # the very same object under the same name: accepted, and must change nothing
+    else:
+      gin.register(mname, module='c8.tw.' + cname)(cls.__dict__[mname])   # the one custom module the code permits: the class's own selector
+      gin.register(cname, module='c8.tw')(cls)
+    full = 'c8.tw.%s.%s' % (cname, mname)
+    for spell in (full, '%s.%s' % (cname, mname), 'tw.%s.%s' % (cname, mname)):
+      try:
+        gin.bind_parameter(spell + '.arg', 3)
+        ctx.count('oracle_evals')
+      except Exception as e:  # pylint: disable=broad-except
+        ctx.check(False, 'registered-method-lost', '%s: after the registrations the method is not addressable as %r: %s: %s' % (which, spell, type(e).__name__, str(e)[:200]))
+    ctx.check(gc._REGISTRY.get(full) is not None and gc._REGISTRY.matching_selectors(mname) == [full], 'registered-method-lost',
+              '%s: registry does not resolve %s (matches %r)' % (which, mname, gc._REGISTRY.matching_selectors(mname)))
+    inst = gin.get_configurable(cls)()
+    ctx.check(getattr(inst, mname)() == 3, 'spelling-dependent-read', '%s: method call received %r' % (which, getattr(inst, mname)()))
+  ctx.fp('special', which, case['spelling'])
+  gin.clear_config()
+
+
 def run_case(ctx, case):
+  if case['kind'] == 'api-special':
+    return run_special(ctx, case)
   if case['kind'] == 'map':
     run_map(ctx, case)
   else:
